@@ -1197,7 +1197,7 @@ class Desugar(ast.NodeTransformer):
                 # [a, b] if C else [a]: the common prefix always, the rest under C (or under not C)
                 a_, b_ = cells(st.value.body), cells(st.value.orelse)
                 short, long_, cond = (b_, a_, st.value.test) if len(a_) >= len(b_) else (a_, b_, ast.UnaryOp(op=ast.Not(), operand=st.value.test))
-                if short and [ast.dump(x) for x in long_[:len(short)]] == [ast.dump(x) for x in short]:
+                if long_ and [ast.dump(x) for x in long_[:len(short)]] == [ast.dump(x) for x in short]:         # (`[x] if C else []`: the empty common prefix)
                     elems = [(None, e) for e in short] + [(cond, e) for e in long_[len(short):]]
             if not elems:
                 continue
